@@ -963,6 +963,9 @@ fn poll_task(id: usize) {
         }
         Err(_) => {
             let info = LAST_PANIC.with(|p| p.borrow_mut().take());
+            if info.is_none() && std::env::var_os("VERIF_PANIC_VERBOSE").is_some() {
+                eprintln!("poll_task({id}): a panic was caught but its record is gone (nested={})", NESTED.with(|n| n.get()));
+            }
             // dropping a future that panicked mid-poll: run destructors, tolerate a second panic
             let _ = std::panic::catch_unwind(std::panic::AssertUnwindSafe(move || drop(fut)));
             with(|w| {
@@ -981,6 +984,52 @@ fn poll_task(id: usize) {
             });
         }
     }
+}
+
+thread_local! {
+    static NESTED: std::cell::Cell<bool> = const { std::cell::Cell::new(false) };
+}
+
+/// Preemption at an instrumented point INSIDE a poll (hook K5: an access to a shared atomic). The task being polled
+/// stays where it is — exactly as a thread that is descheduled between two instructions — while up to `k` other runnable
+/// tasks, chosen by the tape, are polled in its place. One level only: a nested poll is never preempted again.
+/// Returns how many tasks were polled.
+pub fn run_others_nested(k: usize) -> usize {
+    if NESTED.with(|n| n.get()) || std::thread::panicking() {
+        // (a task that is unwinding drops its live locals — the wait-group guard among them — inside its own poll;
+        // nothing is preempted there: one panic record at a time)
+        return 0;
+    }
+    let Some((cur, eff)) = try_with(|w| (w.current_task, w.poll_effects_start)) else { return 0 };
+    if cur.is_none() {
+        return 0; // not inside a poll (e.g. tear-down): nothing to preempt
+    }
+    NESTED.with(|n| n.set(true));
+    let mut done = 0;
+    for _ in 0..k {
+        let pick = with(|w| {
+            let woken = w.drain_wakes();
+            w.apply_wakes(&woken);
+            let cands: Vec<usize> = w.tasks.iter().filter(|t| t.state == TaskState::Runnable && Some(t.id) != cur && t.fut.is_some() && !t.spinner).map(|t| t.id).collect();
+            if cands.is_empty() {
+                None
+            } else {
+                let i = w.tape.draw(cands.len() as u32) as usize;
+                w.count("exec.nested_poll");
+                w.ev("nested", cands[i] as u64, 0);
+                Some(cands[i])
+            }
+        });
+        let Some(id) = pick else { break };
+        poll_task(id);
+        with(|w| {
+            w.current_task = cur;
+            w.poll_effects_start = eff;
+        });
+        done += 1;
+    }
+    NESTED.with(|n| n.set(false));
+    done
 }
 
 /// drop every remaining task future (runs the real destructors), outside the world borrow
